@@ -785,6 +785,8 @@ def run_vstrat(ctx, drv, p, want_driver=True):
                             ctx.fail(f"{label}-vs-model", f"{tag}: q(f) covariance differs from the model's variationalCov K_ss - B^T (I - S) B by "
                                      f"{d_:.3e} (tol {tol:.1e})", p)
                     drv.ask(f"vcov {B.rows_tokens(B.rat_rows(cf['Kss']))} {B.rows_tokens(B.rat_rows(cf['B']))} {B.rows_tokens(B.rat_rows(cf['S']))}", cb)
+            if mode == "eval":
+                fails += _call_forms(ctx, drv, model, p, X, state, q, sscale, want_driver)
             if want_driver and drv is not None and qc.dim() == 2 and qc.shape[-1] <= 12:
                 rows = B.sym_rows(B.rat_rows(qc))
                 dl = B.fr(B.EIG_TOL * sscale)
@@ -799,6 +801,102 @@ def run_vstrat(ctx, drv, p, want_driver=True):
                         ctx.fail(f"{label}-q(f)-indefinite", f"{tag}: (symmetric part of the) q(f) covariance has exact negative curvature "
                                  f"v^T M v = {float(B.quad(rows, dd[2])):.3e} beyond -1e-9*scale", dict(p, witness_v=[C.rat_str(x) for x in dd[2]]))
                 drv.ask(f"psd {C.rat_str(dl)} {B.rows_tokens(rows)}", cb3)
+    return fails
+
+
+def _call_forms(ctx, drv, model, p, X, state, q_full, sscale, want_driver):
+    """the other documented CALL FORMS of a variational strategy, judged on the whole matrix (symmetry, PSD, exact certificate,
+    closed form), not only on the diagonal:
+      * `model(x, prior=True)`              == `model.forward(x)` (every strategy class);
+      * `model(x, task_indices=t)`          (IndependentMultitask / LMC; >= 2 distinct tasks among the inputs, and a constant
+                                            vector) == the sub-block of the full multitask q(f) at the pairs (x_i, t_i):
+                                            zero between different tasks for the independent strategy."""
+    import torch
+    import gpytorch
+    B = _B()
+    fails = []
+    strat = p["strategy"]
+    label = f"vstrat-{strat}/{p['vdist']}"
+    tag0 = f"{type(model.variational_strategy).__name__}[{strat}]/{p['vdist']}/{p['kernel']} d={p['d']} M={len(p['inducing'])} state={state}"
+
+    def judge(name, Mx, scale, form):
+        sm, info = B.float_screen(Mx, None, scale_ref=scale, sym_tol=VSTRAT_SYM_TOL)
+        for sym, detail in [x for x in sm if x[0] != "correlation>1"]:
+            mag = info.get("asym_rel", 0.0) if sym == "asymmetric" else max(abs(min(info.get("rel_min_eig", 0.0), 0.0)), B.EIG_TOL)
+            fails.append((f"{label}-{form}-{sym}", f"{tag0}: {name} covariance {detail}", sym, mag, f"Variational({strat},{p['vdist']})/{form}"))
+        if want_driver and drv is not None and Mx.shape[-1] <= 12:
+            rows = B.sym_rows(B.rat_rows(Mx))
+
+            def cb(rep, rows=rows, name=name, form=form):
+                parts = rep.split(";")
+                if len(parts) != 2:
+                    return
+                dd = B.parse_decision(parts[1])
+                ctx.count("model_cov_certified")
+                if dd[0] == "neg":
+                    ctx.fail(f"{label}-{form}-indefinite", f"{tag0}: (symmetric part of the) {name} covariance has exact negative curvature "
+                             f"v^T M v = {float(B.quad(rows, dd[2])):.3e} beyond -1e-9*scale", dict(p, witness_v=[C.rat_str(x) for x in dd[2]]))
+            drv.ask(f"psd {C.rat_str(B.fr(B.EIG_TOL * scale))} {B.rows_tokens(rows)}", cb)
+    with torch.no_grad(), warnings.catch_warnings():
+        warnings.simplefilter("ignore")
+        # ---- prior=True
+        if strat != "nn":
+            try:
+                pr = model(X, prior=True)
+                fw = model.forward(X)
+            except Exception as e:
+                # no covariance is handed out (OBSERVATION on the unchanged tree: OrthogonallyDecoupledVariationalStrategy raises
+                # TypeError for prior=True — `self.model.forward(x)` is the base strategy's forward, docs/C07.md)
+                if ctx is not None:
+                    ctx.count(f"vstrat_prior_call_raises:{strat}:{type(e).__name__}")
+                pr = None
+            if pr is not None:
+                pc, fc = pr.covariance_matrix, fw.covariance_matrix
+                if pc.shape != fc.shape and pc.numel() == fc.numel():
+                    fc = fc.reshape(pc.shape)
+                if pc.shape == fc.shape:
+                    dd_ = (pc - fc).abs().max().item()
+                    if dd_ > 1e-9 * max(fc.abs().max().item(), 1e-300):
+                        fails.append((f"{label}-prior-call-vs-forward", f"{tag0}: model(x, prior=True) covariance differs from model.forward(x) by {dd_:.3e}"))
+                fails += dist_consistency(pr, f"{tag0}: model(x, prior=True)", label + "-prior-call")
+                flat = pc.reshape(-1, *pc.shape[-2:])
+                for i in range(flat.shape[0]):
+                    judge(f"model(x, prior=True)[{i}]", flat[i], max(flat[i].abs().max().item(), 1e-300), "prior-call")
+        # ---- task_indices=
+        if strat in ("indep_multitask", "lmc") and isinstance(q_full, gpytorch.distributions.MultitaskMultivariateNormal):
+            n, T = q_full.mean.shape[-2:]
+            full = q_full.covariance_matrix
+            g = torch.Generator().manual_seed(p["perturb_seed"] + 7)
+            forms = [("distinct", torch.arange(n) % T), ("random", torch.randint(0, T, (n,), generator=g)), ("constant", torch.full((n,), T - 1))]
+            if len(set(forms[1][1].tolist())) < 2:
+                forms[1] = ("random", (torch.arange(n) + 1) % T)
+            for fname, ti in forms:
+                form = f"task_indices[{fname}]"
+                try:
+                    qt = model(X, task_indices=ti)
+                except Exception as e:
+                    fails.append((f"{label}-task_indices-raises", f"{tag0}: model(x, task_indices={ti.tolist()}) raises {type(e).__name__}: {e}"[:500]))
+                    continue
+                tc = qt.covariance_matrix
+                idx = torch.arange(n) * T + ti if q_full._interleaved else ti * n + torch.arange(n)
+                ref = full[idx][:, idx]
+                name = f"model(x, task_indices={ti.tolist()})"
+                if tc.shape != ref.shape:
+                    fails.append((f"{label}-task_indices-shape", f"{tag0}: {name} covariance has shape {tuple(tc.shape)}, expected {tuple(ref.shape)}"))
+                    continue
+                dd_ = (tc - ref).abs().max().item()
+                if dd_ > 1e-8 * sscale:
+                    i, j = divmod(int((tc - ref).abs().argmax()), n)
+                    fails.append((f"{label}-task_indices-vs-full", f"{tag0}: {name}: covariance entry ({i},{j}) (tasks {ti[i].item()}, {ti[j].item()}) is "
+                                  f"{tc[i, j].item()!r}; the full multitask q(f) has {ref[i, j].item()!r} for that pair of (input, task) "
+                                  f"(max difference {dd_:.3e}, scale {sscale:.3e})"))
+                dm = (qt.mean - q_full.mean[torch.arange(n), ti]).abs().max().item()
+                if dm > 1e-8 * max(q_full.mean.abs().max().item(), 1.0):
+                    fails.append((f"{label}-task_indices-mean-vs-full", f"{tag0}: {name}: mean differs from the full multitask mean by {dm:.3e}"))
+                fails += dist_consistency(qt, f"{tag0}: {name}", label + "-task_indices")
+                judge(name, tc, sscale, "task_indices")
+                if ctx is not None:
+                    ctx.count("vstrat_task_indices_forms")
     return fails
 
 
@@ -1018,3 +1116,162 @@ def ovc_cases(ctx, drv, tier):
                     obs["with_signature"] += 1
             B.report_model_fails(ctx, fails, p, lambda p=p: bool(run_ovc(None, None, p, want_driver=False)))
     ctx.notes["ovc_fantasy"] = obs
+
+
+# ------------------------------------------------------------------------------------------------ W5 set_train_data patterns
+# eval -> predict -> set_train_data(<argument pattern>) -> predict, for the exact, SGPR and KISS-GP kinds: whatever the pattern
+# (inputs only, targets only, both, strict / non-strict, resized), the posterior handed out afterwards is a valid covariance
+# (symmetric, exact PSD certificate, prior - posterior PSD, variance = diagonal) and equals that of a model built from scratch
+# on the data the object now holds.
+
+STD_KINDS = ["exact", "sgpr", "kiss"]
+STD_PATTERNS = ["inputs", "inputs_nonstrict", "targets", "both", "both_resize_nonstrict"]
+
+
+def _std_model(p, tx, ty):
+    import torch
+    import gpytorch
+    kind = p["model"]
+    lik = gpytorch.likelihoods.GaussianLikelihood()
+
+    class M(gpytorch.models.ExactGP):
+        def __init__(self):
+            super().__init__(tx, ty, lik)
+            self.mean_module = gpytorch.means.ConstantMean()
+            base = gpytorch.kernels.ScaleKernel(gpytorch.kernels.RBFKernel() if p["kernel"] == "rbf" else gpytorch.kernels.MaternKernel(nu=1.5))
+            if kind == "exact":
+                self.covar_module = base
+            elif kind == "sgpr":
+                self.covar_module = gpytorch.kernels.InducingPointKernel(base, inducing_points=torch.tensor(p["inducing"]), likelihood=lik)
+            else:
+                self.covar_module = gpytorch.kernels.ScaleKernel(gpytorch.kernels.GridInterpolationKernel(
+                    gpytorch.kernels.RBFKernel(), grid_size=p["grid_size"], num_dims=1, grid_bounds=[(-3.5, 3.5)]))
+
+        def forward(self, x):
+            return gpytorch.distributions.MultivariateNormal(self.mean_module(x), self.covar_module(x))
+    m = M()
+    sk = m.covar_module if kind != "sgpr" else m.covar_module.base_kernel
+    sk.outputscale = p["s"]
+    (sk.base_kernel if kind != "kiss" else sk.base_kernel.base_kernel).lengthscale = p["l"]
+    lik.noise = p["s"] * p["noise_rel"]
+    m.mean_module.constant.data.fill_(0.4)
+    return m.eval(), lik.eval()
+
+
+def std_payload(rng, kind):
+    import torch
+    g = torch.Generator().manual_seed(rng.torch_seed())
+    d = 1 if kind == "kiss" else rng.choice([1, 2])
+    n = rng.choice([4, 5, 6])
+    m = rng.choice([2, 3])
+    steps = [rng.choice(STD_PATTERNS) for _ in range(rng.choice([1, 2, 2]))]
+    if rng.random() < 0.5:
+        steps[0] = rng.choice(["inputs", "inputs_nonstrict"])
+    p = {"kind": "set_train_data", "model": kind, "d": d, "kernel": rng.choice(["rbf", "matern1.5"]) if kind != "kiss" else "rbf",
+         "s": rng.choice([0.5, 1.0, 4.0]), "l": rng.choice([0.4, 0.8, 1.5]), "noise_rel": rng.choice([3e-2, 1e-1, 0.5]),
+         "fast_pred_var": rng.random() < 0.3, "steps": steps, "grid_size": rng.choice([10, 14]),
+         "train_x": (torch.randn(n, d, generator=g) * 1.2).clamp(-3, 3).tolist(), "train_y": torch.randn(n, generator=g).tolist(),
+         "test_x": (torch.randn(m, d, generator=g) * 1.2).clamp(-3, 3).tolist(),
+         "inducing": (torch.randn(3, d, generator=g) * 1.2).tolist(),
+         "new": [{"x": (torch.randn(n + 1, d, generator=g) * 1.2).clamp(-3, 3).tolist(), "y": torch.randn(n + 1, generator=g).tolist()}
+                 for _ in steps]}
+    if rng.random() < 0.4:
+        p["test_x"][0] = p["new"][0]["x"][0]          # a test point on one of the NEW training inputs
+    return p
+
+
+def run_set_train_data(ctx, drv, p, want_driver=True):
+    import torch
+    import gpytorch
+    B = _B()
+    fails = []
+    kind = p["model"]
+    tx, ty, sx = torch.tensor(p["train_x"]), torch.tensor(p["train_y"]), torch.tensor(p["test_x"])
+    model, lik = _std_model(p, tx, ty)
+    label = f"set_train_data-{kind}"
+
+    def check(stage, tx, ty):
+        out = []
+        tag = f"{kind} GP ({p['kernel']}, fast_pred_var={p['fast_pred_var']}) history eval > predict > {p['steps']}: {stage}"
+        with torch.no_grad(), warnings.catch_warnings(), gpytorch.settings.fast_pred_var(p["fast_pred_var"]):
+            warnings.simplefilter("ignore")
+            post_d = model(sx)
+            post = post_d.covariance_matrix.clone()
+            out += dist_consistency(post_d, f"{tag}: posterior", label + "-posterior")
+            if kind == "sgpr":
+                # the prior of the GP that SGPR approximates: the base kernel (prior_mode hands out the Nystrom kernel with the
+                # diagonal correction, which the Titsias posterior K** - Q** + ... is not bounded by)
+                prior = model.covar_module.base_kernel(sx).to_dense().clone()
+            else:
+                with gpytorch.settings.prior_mode(True):
+                    prior = model(sx).covariance_matrix.clone()
+            twin, _ = _std_model(p, tx, ty)
+            twin.load_state_dict(model.state_dict())
+            tw = twin(sx).covariance_matrix.clone()
+        prior = (prior + prior.T) / 2
+        scale = max(torch.linalg.eigvalsh(prior).abs().max().item(), 1e-300)
+        for nm, Mx in (("posterior", post), ("prior-minus-posterior", prior - post)):
+            sm, info = B.cov_screen(Mx, scale)
+            for sym, detail in sm:
+                mag = info.get("asym_rel", 0.0) if sym == "asymmetric" else max(abs(min(info.get("rel_min_eig", 0.0), 0.0)), B.EIG_TOL)
+                out.append((f"{label}-{nm}-{sym}", f"{tag}: {nm} covariance {detail}", sym, mag, f"set_train_data({kind})/{nm}"))
+        dd = (post - tw).abs().max().item()
+        if dd > 1e-6 * scale:
+            out.append((f"{label}-vs-fresh-model", f"{tag}: posterior covariance differs from that of a model built from scratch on the "
+                        f"data the object now holds (same hyperparameters) by {dd:.3e} (scale {scale:.3e})"))
+        if want_driver and drv is not None:
+            rows = B.sym_rows(B.rat_rows(post))
+
+            def cb(rep, rows=rows, tag=tag):
+                parts = rep.split(";")
+                if len(parts) != 2:
+                    return
+                dcs = B.parse_decision(parts[1])
+                ctx.count("model_cov_certified")
+                if dcs[0] == "neg":
+                    ctx.fail(f"{label}-posterior-indefinite", f"{tag}: posterior covariance has exact negative curvature v^T M v = "
+                             f"{float(B.quad(rows, dcs[2])):.3e} beyond -1e-9*||prior||", dict(p, witness_v=[C.rat_str(x) for x in dcs[2]]))
+            drv.ask(f"psd {C.rat_str(B.fr(B.EIG_TOL * scale))} {B.rows_tokens(rows)}", cb)
+        return out
+    fails += check("initial prediction", tx, ty)
+    for k, (pat, nw) in enumerate(zip(p["steps"], p["new"]), 1):
+        nx, ny = torch.tensor(nw["x"]), torch.tensor(nw["y"])
+        n_cur = tx.shape[0]
+        if pat == "inputs":
+            tx = nx[:n_cur].clone()
+            model.set_train_data(inputs=tx)
+        elif pat == "inputs_nonstrict":
+            tx = nx[:n_cur].clone()
+            model.set_train_data(inputs=tx, strict=False)
+        elif pat == "targets":
+            ty = ny[:n_cur].clone()
+            model.set_train_data(targets=ty)
+        elif pat == "both":
+            tx, ty = nx[:n_cur].clone(), ny[:n_cur].clone()
+            model.set_train_data(tx, ty)
+        else:
+            tx, ty = nx.clone(), ny.clone()
+            model.set_train_data(tx, ty, strict=False)
+        fails += check(f"after step {k} set_train_data[{pat}]", tx, ty)
+    return fails
+
+
+def set_train_data_cases(ctx, drv, tier):
+    B = _B()
+    rng = ctx.rng("set_train_data")
+    reps = 5 if tier == "quick" else 50
+    pats = {}
+    for kind in STD_KINDS:
+        for _ in range(reps):
+            p = std_payload(rng, kind)
+            try:
+                fails = run_set_train_data(ctx, drv, p)
+            except Exception as e:
+                ctx.broke("correspondence", f"set_train_data:{kind}", f"{p['steps']}: {type(e).__name__}: {e}"[:600])
+                continue
+            for s_ in p["steps"]:
+                pats[s_] = pats.get(s_, 0) + 1
+            ctx.case(f"set_train_data {kind} {p['steps']} {p['kernel']} fpv={p['fast_pred_var']} x0={p['train_x'][0]}",
+                     sample={"kind": "set_train_data", "model": kind, "steps": p["steps"]})
+            B.report_model_fails(ctx, fails, p, lambda p=p: bool(run_set_train_data(None, None, p, want_driver=False)))
+    ctx.notes["set_train_data_patterns"] = pats
